@@ -161,23 +161,34 @@ def check_accepted_combinations(w, rep, modname, fn, call):
         import itertools
         keys = [k for k in ("with_mem", "with_header", "main", "mex") if k in d]
         worst = None
+        undecided = None
         n = 0
         for vals in itertools.product((False, True), repeat=len(keys)):
             kw = dict(zip(keys, vals))
             before = len(cm.CodeGeneratorVal.registry)
+            old_or = w.it.branch_oracle
+            w.it.branch_oracle = lambda stub, node: False        # file-system questions: the ordinary answer (C09.gen explores both)
             try:
                 call(kw)
-            except (InterpRaise, Unsupported) as ex:
+            except InterpRaise as ex:
                 worst = worst or (kw, ["generator raised: %s" % ex])
                 continue
+            except Unsupported as ex:
+                undecided = str(ex)
+                continue
+            finally:
+                w.it.branch_oracle = old_or
             gs = cm.CodeGeneratorVal.registry[before:]
             n += 1
             if gs:
                 bad = contract(gs[0].opts)
                 if bad and worst is None:
                     worst = (kw, bad)
-        rep.check("C09.options", "%s: all %d combinations of %s satisfy CasADi's contract" % (label, 2 ** len(keys), "/".join(keys)), worst is None,
-                  "with %s CasADi refuses the options the generator builds: %s" % (worst[0] if worst else "", "; ".join(worst[1]) if worst else ""), where=where, fact={"combinations": n})
+        if worst is None and undecided is not None:
+            rep.incomplete("C09.options", "%s: all %d combinations of %s satisfy CasADi's contract" % (label, 2 ** len(keys), "/".join(keys)), "analyser cannot interpret: %s" % undecided, where=where)
+        else:
+            rep.check("C09.options", "%s: all %d combinations of %s satisfy CasADi's contract" % (label, 2 ** len(keys), "/".join(keys)), worst is None,
+                      "with %s CasADi refuses the options the generator builds: %s" % (worst[0] if worst else "", "; ".join(worst[1]) if worst else ""), where=where, fact={"combinations": n})
     ok, gens = run_generator(w, rep, "C09.options", "%s(bogus=1)" % label, lambda: call({"definitely_not_an_option": True}), where) if False else (True, [])
 
 
